@@ -31,7 +31,7 @@ type stageMsg struct {
 	sig     []byte // nil = nil Signature
 }
 
-func c01Stage(rng *hx.Rng, w *hx.Writer, s *tblsSetup, contents [][]byte, msgs []stageMsg, tag string) {
+func c01Stage(rng *hx.Rng, w *hx.Writer, s *tblsSetup, contents [][]byte, msgs []stageMsg, tag string, mustReport bool) {
 	// decode table and hash table
 	tbl := []string{}
 	seen := map[string]bool{}
@@ -114,6 +114,8 @@ func c01Stage(rng *hx.Rng, w *hx.Writer, s *tblsSetup, contents [][]byte, msgs [
 	oracle := "ok"
 	if impl == hx.P || impl == "H" {
 		oracle = hx.Fail("stage-panic-or-hang", "recoverSign panicked or did not finish")
+	} else if impl == hx.N && mustReport {
+		oracle = hx.Fail("no-report-despite-threshold", "valid shares of a threshold of distinct members on one content were delivered (among junk) and recoverSign reported nothing")
 	} else if impl != hx.N {
 		// whatever is reported must verify under the group key on result ++ (some 20 bytes of a content)
 		okAny := false
@@ -227,7 +229,7 @@ func genC01Stage(rng *hx.Rng, tier string, w *hx.Writer) {
 		if k < t {
 			tag = "below"
 		}
-		c01Stage(rng, w, s, contents, msgs, tag)
+		c01Stage(rng, w, s, contents, msgs, tag, k >= t && len(c0) >= 20)
 	}
 }
 
